@@ -16,7 +16,7 @@ fn case_of(usage: &str, names: &[String]) -> Value {
     json!({"use": usage, "names": names})
 }
 
-const PTYPES: u64 = 11;
+const PTYPES: u64 = 12;
 
 fn prop_case(names: &[String], ptype: u64) -> Value {
     json!({"use": "prop", "names": names, "ptype": ptype})
@@ -57,6 +57,8 @@ pub fn doc_of(c: &Value) -> Option<(Value, Vec<String>)> {
                 9 => (json!({"type": "string", "default": "dflt"}), false),
                 // 10: named in `required` only, declared nowhere
                 10 => (Value::Null, true),
+                // 11: next to typed additionalProperties (the struct gets a synthetic flattened member)
+                11 => (json!({"type": "integer"}), true),
                 _ => return None,
             };
             let mut props = Map::new();
@@ -73,7 +75,11 @@ pub fn doc_of(c: &Value) -> Option<(Value, Vec<String>)> {
                     props.insert(n.clone(), if i % 2 == 0 { json!({"type": "integer"}) } else { json!({"type": "string"}) });
                 }
             }
-            json!({"definitions": {"Holder": {"type": "object", "properties": props, "required": req}}})
+            if ptype == 11 {
+                json!({"definitions": {"Holder": {"type": "object", "properties": props, "required": req, "additionalProperties": {"type": "string"}}}})
+            } else {
+                json!({"definitions": {"Holder": {"type": "object", "properties": props, "required": req}}})
+            }
         }
         "enum" => json!({"definitions": {"Holder": {"type": "string", "enum": names}}}),
         "def" => {
@@ -239,6 +245,10 @@ impl Property for C08 {
             names.push(format!("_{k}"));
             names.push(format!("r#{k}"));
         }
+        // spellings of names typify itself introduces (`extra`, `Variant0`, `Inner`, ...)
+        for k in ["extra", "Extra", "EXTRA", "extra_", "_extra", "extra-", " extra", "Variant0", "variant0", "Inner", "inner", "subtype_0", "value", "Value"] {
+            names.push(k.to_string());
+        }
         names.sort();
         names.dedup();
         let uses = ["prop", "enum", "def", "variant"];
@@ -303,7 +313,8 @@ impl Property for C08 {
                     unit.violations.push(Violation::new("item-missing", "no item Holder".to_string()));
                     return unit;
                 };
-                let mut got: Vec<String> = item.fields.iter().filter_map(|f| f.wire_name()).collect();
+                // (a flattened member stands for the undeclared properties and has no name on the wire)
+                let mut got: Vec<String> = item.fields.iter().filter(|f| !f.flatten).filter_map(|f| f.wire_name()).collect();
                 got.sort();
                 if got != want {
                     unit.violations.push(Violation::new("wire-name-mismatch", format!("properties {:?} are bound to serde names {:?}", want, got)));
@@ -367,6 +378,7 @@ impl Property for C08 {
                         6 => json!(false),
                         7 => json!({"inner": 3}),
                         8 => json!(["u"]),
+                        11 => json!(7),
                         _ => json!("other"),
                     };
                     let mut m = Map::new();
